@@ -419,25 +419,40 @@ theorem encValue_arr (pos : Nat) (xs : List Spec.Json) :
 /-! ### the documents covered by the round-trip theorem proved so far -/
 
 mutual
-/-- arrays (at most 10 000 elements — the implementation's limit) of such documents, strings, booleans,
-null and well-formed numerics; no objects -/
-def arraysOnly : Spec.Json → Bool
+/-- the documents of the round-trip theorem: numerics well-formed, no container beyond the
+implementation's limit of 10 000 elements / pairs, the keys of every object pairwise distinct -/
+def covered : Spec.Json → Bool
   | .null => true
   | .bool _ => true
   | .num n _ => decide n.WF
   | .str _ => true
-  | .arr xs => decide (xs.length ≤ 10000) && arraysOnlyList xs
-  | .obj _ => false
-def arraysOnlyList : List Spec.Json → Bool
+  | .arr xs => decide (xs.length ≤ 10000) && coveredList xs
+  | .obj kvs => decide (kvs.length ≤ 10000) && decide ((kvs.map (·.1)).Nodup) && coveredKvs kvs
+def coveredList : List Spec.Json → Bool
   | [] => true
-  | x :: xs => arraysOnly x && arraysOnlyList xs
+  | x :: xs => covered x && coveredList xs
+def coveredKvs : List (Bytes × Spec.Json) → Bool
+  | [] => true
+  | (_, v) :: rest => covered v && coveredKvs rest
 end
 
-theorem arraysOnlyList_mem (xs : List Spec.Json) (h : arraysOnlyList xs = true) : ∀ x ∈ xs, arraysOnly x = true := by
+theorem coveredList_mem (xs : List Spec.Json) (h : coveredList xs = true) : ∀ x ∈ xs, covered x = true := by
   induction xs with
   | nil => intro x hx; simp at hx
   | cons y ys ih =>
-    simp only [arraysOnlyList, Bool.and_eq_true] at h
+    simp only [coveredList, Bool.and_eq_true] at h
+    intro x hx
+    rcases List.mem_cons.mp hx with e | m
+    · subst e; exact h.1
+    · exact ih h.2 x m
+
+theorem coveredKvs_mem (kvs : List (Bytes × Spec.Json)) (h : coveredKvs kvs = true) :
+    ∀ kv ∈ kvs, covered kv.2 = true := by
+  induction kvs with
+  | nil => intro x hx; simp at hx
+  | cons y ys ih =>
+    obtain ⟨k, v⟩ := y
+    simp only [coveredKvs, Bool.and_eq_true] at h
     intro x hx
     rcases List.mem_cons.mp hx with e | m
     · subst e; exact h.1
@@ -476,7 +491,7 @@ theorem formOf_admits (n : Spec.Numeric) (long : Bool) : (Spec.formOf n long).ad
 
 /-- the JEntry of a child written at `pos` and found at `off` in `data` decodes to the child's view -/
 def DecodesAs (x : Spec.Json) : Prop :=
-  arraysOnly x = true → ∀ (pos off : Nat) (data : Bytes) (fuel : Nat) (e : Nat),
+  covered x = true → ∀ (pos off : Nat) (data : Bytes) (fuel : Nat) (e : Nat),
     pos % 4 = off % 4 → 0 < off →
     off + (Spec.encValue pos x).2.length ≤ data.length →
     (data.take (off + (Spec.encValue pos x).2.length)).drop off = (Spec.encValue pos x).2 →
@@ -508,7 +523,7 @@ theorem parseContainer_empty_arr (rec : Bytes → M JV) (sc : Bool) :
 /-- an encoded array container with elements `xs` (written at a 4-aligned position, `P` = position of
 its data area) parses to the views of `xs`, given the induction hypothesis for the elements -/
 theorem parse_arrBytes (xs : List Spec.Json) (P : Nat) (sc : Bool) (f : Nat)
-    (hP : P % 4 = (4 + 4 * xs.length) % 4) (ih : ∀ x ∈ xs, DecodesAs x) (hs : arraysOnlyList xs = true)
+    (hP : P % 4 = (4 + 4 * xs.length) % 4) (ih : ∀ x ∈ xs, DecodesAs x) (hs : coveredList xs = true)
     (h0 : 0 < xs.length) (h1 : xs.length ≤ 10000)
     (hsmall : (arrBytes (childEncs P xs) sc).length < 0x10000000)
     (hf : (arrBytes (childEncs P xs) sc).length ≤ f) :
@@ -559,7 +574,7 @@ theorem parse_arrBytes (xs : List Spec.Json) (P : Nat) (sc : Bool) (f : Nat)
         · exact mk_ty _ _ _ (by omega) (encValue_ty_lt _ _)
       rw [hlk, hc] at hle hpl
       rw [hlk, hc]
-      obtain ⟨r, hr1, hr2⟩ := ih _ hx (arraysOnlyList_mem xs hs _ hx) (P + pre (lensOf (childEncs P xs)) k)
+      obtain ⟨r, hr1, hr2⟩ := ih _ hx (coveredList_mem xs hs _ hx) (P + pre (lensOf (childEncs P xs)) k)
         (4 + (childEncs P xs).length * 4 + pre (lensOf (childEncs P xs)) k) (arrBytes (childEncs P xs) sc) f
         ((entriesOf 0 0 (childEncs P xs)).getD k 0) (by omega) (by omega)
         (by omega)
@@ -582,165 +597,5 @@ theorem parse_arrBytes (xs : List Spec.Json) (P : Nat) (sc : Bool) (f : Nat)
     intro k hk
     rw [← (hg k hk).2]
     simp [List.getD, hk]
-
-theorem drop_add_of_append (data : Bytes) (off n pad : Nat) (rest : Bytes)
-    (h : (data.take (off + n)).drop off = zeros pad ++ rest) :
-    (data.take (off + n)).drop (off + pad) = rest := by
-  rw [← List.drop_drop, h, List.drop_left' (by simp)]
-
-theorem decodesAs_all (x : Spec.Json) : DecodesAs x := by
-  refine Spec.Json.rec (motive_1 := DecodesAs) (motive_2 := fun xs => ∀ x ∈ xs, DecodesAs x)
-    (motive_3 := fun _ => True) (motive_4 := fun _ => True) ?_ ?_ ?_ ?_ ?_ ?_ ?_ ?_ ?_ ?_ ?_ x
-  · -- null
-    intro _ pos off data fuel e _ _ _ _ _ he _
-    have henc : Spec.encValue pos .null = (4, []) := rfl
-    rw [henc] at he
-    exact ⟨.nil, decodeJEntry_null _ _ _ _ _ he, rfl⟩
-  · -- bool
-    intro b _ pos off data fuel e _ _ _ _ _ he _
-    cases b
-    · have henc : Spec.encValue pos (.bool false) = (2, []) := rfl
-      rw [henc] at he
-      exact ⟨.bool false, decodeJEntry_false _ _ _ _ _ he, rfl⟩
-    · have henc : Spec.encValue pos (.bool true) = (3, []) := rfl
-      rw [henc] at he
-      exact ⟨.bool true, decodeJEntry_true _ _ _ _ _ he, rfl⟩
-  · -- numeric
-    intro n long hs pos off data fuel e hp _ hb hsl hsm he _
-    have hwf : n.WF := by simpa [arraysOnly] using hs
-    have henc : Spec.encValue pos (.num n long) =
-      (1, zeros (Spec.padTo4 pos) ++ Spec.varlena4 (Spec.encNumeric (Spec.formOf n long) n)) := rfl
-    rw [henc] at hb hsl hsm he ⊢
-    simp only [List.length_append, zeros_length] at hb hsm ⊢
-    have hvl : (Spec.varlena4 (Spec.encNumeric (Spec.formOf n long) n)).length =
-        (Spec.encNumeric (Spec.formOf n long) n).length + 4 := by
-      simp [Spec.varlena4, le_length]; omega
-    have hpos := encNumeric_pos (Spec.formOf n long) n
-    rw [decodeJEntry_num _ data pos off _ e he hp (by omega) hb]
-    rw [drop_add_of_append data off _ _ _ (by simpa [List.length_append] using hsl)]
-    rw [decodeJNumeric_varlena4 _ hpos (by omega)]
-    have hv := decodeNumeric_enc n hwf (Spec.formOf n long) (formOf_admits n long)
-    cases hd : decodeNumeric (Spec.encNumeric (Spec.formOf n long) n) with
-    | error er => rw [hd] at hv; simp [Except.map] at hv
-    | ok r0 =>
-      rw [hd] at hv
-      simp only [Except.map, Except.ok.injEq] at hv
-      refine ⟨JV.ofNum r0, rfl, ?_⟩
-      cases r0 with
-      | none => simp [NumRes.toView] at hv
-      | int0 => simp only [JV.ofNum, JV.toView, hv]; rfl
-      | special s => simp only [JV.ofNum, JV.toView, hv]; rfl
-      | num a b c => simp only [JV.ofNum, JV.toView, hv]; rfl
-  · -- string
-    intro s _ pos off data fuel e _ _ hb hsl _ he _
-    have henc : Spec.encValue pos (.str s) = (0, s) := rfl
-    rw [henc] at hb hsl he ⊢
-    rw [decodeJEntry_str _ data off s.length e he hb, hsl]
-    exact ⟨_, rfl, rfl⟩
-  · -- array
-    intro xs ih hs pos off data fuel e hp hoff hb hsl hsm he hfuel
-    simp only [arraysOnly, Bool.and_eq_true, decide_eq_true_eq] at hs
-    obtain ⟨hpa, hp4⟩ := padTo4_aligned pos
-    rw [encValue_arr] at hb hsl hsm he ⊢
-    simp only [List.length_append, zeros_length] at hb hsm ⊢
-    have hal := arrBytes_length (childEncs (pos + Spec.padTo4 pos + 4 + 4 * xs.length) xs) false
-    rw [decodeJEntry_container _ data pos off _ e he hp (by omega) hb]
-    rw [drop_add_of_append data off _ _ _ (by simpa [List.length_append] using hsl)]
-    cases fuel with
-    | zero => omega
-    | succ f =>
-      show ∃ r, parseContainer (parseJSONBFuel f) _ = .ok r ∧ _
-      by_cases h0 : xs.length = 0
-      · have : xs = [] := List.eq_nil_of_length_eq_zero h0
-        subst this
-        exact ⟨_, parseContainer_empty_arr _ _, rfl⟩
-      · obtain ⟨rs, h1, h2, h3⟩ := parse_arrBytes xs (pos + Spec.padTo4 pos + 4 + 4 * xs.length) false f
-          (by omega) ih hs.2 (by omega) hs.1 (by omega) (by omega)
-        refine ⟨_, h1, ?_⟩
-        show Spec.JView.arr (toViewList rs) = Spec.JView.arr (Spec.viewList xs)
-        rw [h3]
-  · -- object: not covered
-    intro kvs _ hs
-    simp [arraysOnly] at hs
-  · intro x hx; simp at hx
-  · intro x xs ihx ihxs y hy
-    rcases List.mem_cons.mp hy with e | m
-    · subst e; exact ihx
-    · exact ihxs y m
-  · trivial
-  · intros; trivial
-  · intros; trivial
-
-mutual
-/-- the implementation's limit: no container has more than 10 000 elements / pairs -/
-def countsOK : Spec.Json → Bool
-  | .arr xs => decide (xs.length ≤ 10000) && countsOKList xs
-  | .obj kvs => decide (kvs.length ≤ 10000) && countsOKKvs kvs
-  | _ => true
-def countsOKList : List Spec.Json → Bool
-  | [] => true
-  | x :: xs => countsOK x && countsOKList xs
-def countsOKKvs : List (Bytes × Spec.Json) → Bool
-  | [] => true
-  | (_, v) :: rest => countsOK v && countsOKKvs rest
-end
-
-/-! ### whole documents -/
-
-theorem encJsonb_scalar (j : Spec.Json) (h : j.isContainer = false) :
-    Spec.encJsonb j = arrBytes (childEncs 12 [j]) true := by
-  unfold Spec.encJsonb
-  rw [h]
-  simp only [Bool.false_eq_true, if_false]
-  rw [encElems_eq]
-  simp only [arrBytes, arrHeader, childEncs_length, List.length_singleton, List.append_assoc, if_true]
-
-theorem roundtrip_scalar (j : Spec.Json) (hc : j.isContainer = false) (hs : arraysOnly j = true)
-    (hsize : (Spec.encJsonb j).length < 0x10000000) :
-    (parseJSONB (Spec.encJsonb j)).map JV.toView = .ok j.view := by
-  rw [encJsonb_scalar j hc] at hsize ⊢
-  unfold parseJSONB
-  show (parseContainer (parseJSONBFuel _) _).map JV.toView = _
-  obtain ⟨rs, h1, h2, h3⟩ := parse_arrBytes [j] 12 true (arrBytes (childEncs 12 [j]) true).length (by simp)
-    (fun x _ => decodesAs_all x) (by simp [arraysOnlyList, hs]) (by simp) (by simp) hsize (Nat.le_refl _)
-  rw [h1]
-  match rs, h2, h3 with
-  | [r], _, h3 =>
-    simp only [toViewList, Spec.viewList, List.cons.injEq, and_true] at h3
-    simp only [Except.map, unwrapScalar, if_true, h3]
-
-theorem roundtrip_array (xs : List Spec.Json) (hs : arraysOnly (.arr xs) = true)
-    (hsize : (Spec.encJsonb (.arr xs)).length < 0x10000000) :
-    (parseJSONB (Spec.encJsonb (.arr xs))).map JV.toView = .ok (Spec.Json.arr xs).view := by
-  have e : Spec.encJsonb (.arr xs) = (Spec.encValue 4 (.arr xs)).2 := rfl
-  rw [e, encValue_arr] at hsize ⊢
-  have hp : Spec.padTo4 4 = 0 := rfl
-  simp only [hp, zeros, List.replicate_zero, List.nil_append, Nat.add_zero] at hsize ⊢
-  simp only [arraysOnly, Bool.and_eq_true, decide_eq_true_eq] at hs
-  unfold parseJSONB
-  show (parseContainer (parseJSONBFuel _) _).map JV.toView = _
-  by_cases h0 : xs.length = 0
-  · have : xs = [] := List.eq_nil_of_length_eq_zero h0
-    subst this
-    rw [show childEncs (4 + 4 + 4 * ([] : List Spec.Json).length) [] = [] from rfl, parseContainer_empty_arr]
-    rfl
-  · obtain ⟨rs, h1, h2, h3⟩ := parse_arrBytes xs (4 + 4 + 4 * xs.length) false
-      (arrBytes (childEncs (4 + 4 + 4 * xs.length) xs) false).length (by omega)
-      (fun x _ => decodesAs_all x) hs.2 (by omega) hs.1 hsize (Nat.le_refl _)
-    rw [h1]
-    show Except.ok (Spec.JView.arr (toViewList rs)) = Except.ok (Spec.JView.arr (Spec.viewList xs))
-    rw [h3]
-
-/-- round trip for every document made of arrays, strings, booleans, null and numerics -/
-theorem roundtrip_arraysOnly (j : Spec.Json) (hs : arraysOnly j = true)
-    (hsize : (Spec.encJsonb j).length < 0x10000000) :
-    (parseJSONB (Spec.encJsonb j)).map JV.toView = .ok j.view := by
-  cases j with
-  | arr xs => exact roundtrip_array xs hs hsize
-  | obj kvs => simp [arraysOnly] at hs
-  | null => exact roundtrip_scalar _ rfl hs hsize
-  | bool b => exact roundtrip_scalar _ rfl hs hsize
-  | num n l => exact roundtrip_scalar _ rfl hs hsize
-  | str s => exact roundtrip_scalar _ rfl hs hsize
 
 end PgVerif.Proofs
